@@ -311,6 +311,7 @@ structure Tables where
   validation : Ty
   inference : Ty                                       -- InferenceConfig (dataset field = DatasetConfig)
   builderParams : List Sym                             -- parameters of build_mri_transforms
+  builderVarKw : Bool                                  -- ... and whether it takes **kwargs
   maskBuilderRequired : List Sym                       -- parameters of build_masking_function without default
   /-- well-known keys -/
   kModel : Sym
@@ -519,7 +520,8 @@ def maskingCheck (t : Tables) (masking : Val) : Res :=
 def transformsCheck (t : Tables) (transforms : Val) : Res :=
   match transforms with
   | .map kvs =>
-    if (flattenKVs (removeKey t.kMasking kvs)).all fun k => t.builderParams.contains k then .ok () else .error .typeError
+    if t.builderVarKw || (flattenKVs (removeKey t.kMasking kvs)).all fun k => t.builderParams.contains k then .ok ()
+    else .error .typeError
   | _ => .error .attributeError
 
 /-- an *untyped* training / validation block: what the file says is what the builders get -/
